@@ -238,10 +238,15 @@ func builtinJSONStringify(call FunctionCall) Value {
 	if !exists {
 		return Value{}
 	}
-	valueJSON, err := json.Marshal(value)
+	// Quote leaves < > & as they are: no HTML escaping.
+	marshalled := bytes.Buffer{}
+	encoder := json.NewEncoder(&marshalled)
+	encoder.SetEscapeHTML(false)
+	err := encoder.Encode(value)
 	if err != nil {
 		panic(call.runtime.panicTypeError("JSON.stringify marshal: %s", err))
 	}
+	valueJSON := bytes.TrimSuffix(marshalled.Bytes(), []byte("\n"))
 	if ctx.gap != "" {
 		valueJSON1 := bytes.Buffer{}
 		if err = json.Indent(&valueJSON1, valueJSON, "", ctx.gap); err != nil {
